@@ -1,7 +1,7 @@
 """C03 — allocation failure is always signalled (DESIGN.md #C03)"""
 import subjects
 
-SPEC = dict(modules=["MemVerif.Props.C03"], gen_cfgs=("rwdi",),
+SPEC = dict(modules=["MemVerif.Props.C03", "MemVerif.Props.C03Coll"], gen_cfgs=("rwdi",),
             assumptions=["count*size of the traits-level array functions is computed in size_t and may wrap (finding D21, outside the proved statements)",
                          "crash/handler outcomes of the model are contract violations; they do not occur on validated traces"])
 
